@@ -346,24 +346,35 @@ func (db *SingleBucketBackend) PutObject(
 		}
 	}
 
-	f, err := db.fs.Create(objectFilePath)
+	// The body is written to a temporary file which is renamed into place only
+	// once it has been received in full: an upload that fails, is rejected or is
+	// still in progress must not truncate the existing object (which may also
+	// be the source the body is being copied from).
+	// (The backend's lock is held, so one fixed name per directory suffices.)
+	tmpFilePath := filepath.Join(objectDir, ".gofakes3-upload.tmp")
+	f, err := db.fs.OpenFile(tmpFilePath, os.O_WRONLY|os.O_CREATE|os.O_TRUNC, 0666)
 	if err != nil {
 		return result, err
 	}
 
-	var closed bool
+	var closed, renamed bool
 	defer func() {
 		// Unfortunately, afero's MemMapFs updates the mtime if you double-close, which
 		// highlights that other afero.Fs implementations may have side effects here::
 		if !closed {
 			f.Close()
 		}
+		if !renamed {
+			db.fs.Remove(tmpFilePath)
+		}
 	}()
 
 	hasher := md5.New()
 	w := io.MultiWriter(f, hasher)
-	if _, err := io.Copy(w, input); err != nil {
+	if n, err := io.Copy(w, input); err != nil {
 		return result, err
+	} else if n != size {
+		return result, gofakes3.ErrIncompleteBody
 	}
 
 	// We have to close here before we stat the file as some filesystems don't update the
@@ -373,6 +384,11 @@ func (db *SingleBucketBackend) PutObject(
 	}
 
 	closed = true
+
+	if err := db.fs.Rename(tmpFilePath, objectFilePath); err != nil {
+		return result, err
+	}
+	renamed = true
 
 	stat, err := db.fs.Stat(objectFilePath)
 	if err != nil {
